@@ -35,6 +35,9 @@ pub trait CurveDrv: 'static {
     fn from_coord(c: Self::B, greatest: bool) -> Option<Aff<Self>>;
     /// multiply all projective coordinates so that the same point gets another representative
     fn rescale(g: &Self::G, lam: &Self::B) -> Self::G;
+    /// is the addition law complete on the whole curve (always for short Weierstrass with its case analysis; twisted Edwards:
+    /// a square and d non-square)?  Scalar multiples of points OUTSIDE the subgroup are only meaningful then.
+    fn complete() -> bool { true }
     /// both solutions for the other coordinate (get_ys_from_x_unchecked / get_xs_from_y_unchecked)
     fn recover(c: Self::B) -> Option<(Self::B, Self::B)>;
     /// GLV (only for configurations that ship it): eigenvalue, scalar decomposition, endomorphism-accelerated multiplication
@@ -186,6 +189,10 @@ where
     }
     fn recover(c: Self::B) -> Option<(Self::B, Self::B)> {
         tem::Affine::<P>::get_xs_from_y_unchecked(c)
+    }
+    fn complete() -> bool {
+        use ark_ff::Field;
+        P::COEFF_A.legendre().is_qr() && P::COEFF_D.legendre().is_qnr()
     }
     fn rescale(g: &Self::G, lam: &Self::B) -> Self::G {
         tem::Projective::new_unchecked(g.x * lam, g.y * lam, g.t * lam, g.z * lam)
@@ -661,6 +668,7 @@ pub fn record<D: CurveDrv>(cfg: &str, seed: u64, n: usize, profile: &str, out: &
     let mul_w = if profile == "mul" { 35 } else if profile == "subgroup" { 6 } else { 8 };
     let sub_w = if profile == "subgroup" { 30 } else { 5 };
     let mut mul_budget = if profile == "mul" { n } else { n / 6 + 20 };
+    let mut pending_query: Option<usize> = None;
     let mut step = 0;
     while step < n {
         step += 1;
@@ -673,7 +681,7 @@ pub fn record<D: CurveDrv>(cfg: &str, seed: u64, n: usize, profile: &str, out: &
             continue;
         }
         let c = if profile == "msm" { rng.below(16) } else { rng.below(100 + mul_w + sub_w) };
-        let mut ev: Value = if c < 16 { json!({"op": "load", "d": d + 1}) }
+        let mut ev: Value = if let Some(q) = pending_query.take() { json!({"op": "in_subgroup", "d": q + 1, "s": q + 1}) } else if c < 16 { json!({"op": "load", "d": d + 1}) }
             else if c < 36 { json!({"op": "add", "d": d + 1, "s": s + 1}) }
             else if c < 48 { json!({"op": "sub", "d": d + 1, "s": s + 1}) }
             else if c < 58 { json!({"op": "dbl", "d": d + 1}) }
@@ -707,17 +715,23 @@ pub fn record<D: CurveDrv>(cfg: &str, seed: u64, n: usize, profile: &str, out: &
         let mut ret = Value::Null;
         let mut failure = None;
         if op == "load" {
-            let p: D::G = match rng.below(12) {
+            // the subgroup profile mostly loads points from arbitrary coordinates (outside the subgroup when the cofactor is > 1)
+            // and points of small order (r.P for such a P: its order divides the cofactor), and queries every loaded point
+            let pick = if profile == "subgroup" { [3u64, 3, 3, 3, 4, 5, 12, 12, 12, 0, 6, 9][rng.below(12) as usize] } else { rng.below(12) };
+            let pick = if pick == 12 && !D::complete() { 3 } else { pick };
+            let arbitrary = |rng: &mut Rng| -> D::G { let mut found = None;
+                for _ in 0..200 { if let Some(a) = D::from_coord(random_base::<D::B>(rng), rng.coin()) { found = Some(a); break; } }
+                found.map(|a| a.into_group()).unwrap_or(gen) };
+            let p: D::G = match pick {
                 0 => D::G::zero(),
                 1 => regs[s],
                 2 => -regs[s],
-                3 | 4 | 5 => { // arbitrary curve point (outside the subgroup when the cofactor is > 1)
-                    let mut found = None;
-                    for _ in 0..200 { if let Some(a) = D::from_coord(random_base::<D::B>(&mut rng), rng.coin()) { found = Some(a); break; } }
-                    found.map(|a| a.into_group()).unwrap_or(gen) }
+                3 | 4 | 5 => arbitrary(&mut rng),
+                12 => arbitrary(&mut rng).mul_bigint(k_limbs(&r_mod)),          // order divides the cofactor
                 6 => gen,
                 _ => gen.mul_bigint(k_limbs(&rng.biguint_below(&r_mod))),
             };
+            if profile == "subgroup" { pending_query = Some(d); }
             // store an arbitrary projective representative
             let lam = loop { let l = random_base::<D::B>(&mut rng); if !l.is_zero() { break l } };
             regs[d] = if rng.below(4) == 0 { p } else { D::rescale(&p, &lam) };
